@@ -54,7 +54,7 @@ def _impl_run(cases: list[dict], scratch: Path, tag: str, nofail: bool = False) 
     inp.write_text(json.dumps(cases))
     env = {'PYTHONPATH': f'{coqrun.REPO}/src:{VERIF}', 'PYTHONHASHSEED': '0', 'PATH': '/usr/bin:/bin', 'TZ': 'UTC'}
     r = subprocess.run(['/venv/bin/python', '-u', '-m', 'harness.sched_runner', str(inp), str(outp),
-                        '1' if nofail else '0'], cwd=VERIF, env=env, capture_output=True, text=True, timeout=3000)
+                        '1' if nofail else '0'], cwd=VERIF, env=env, capture_output=True, text=True, timeout=900)
     if r.returncode != 0:
         raise RuntimeError('implementation runner failed: ' + r.stderr[-3000:])
     return json.loads(outp.read_text())
@@ -159,9 +159,11 @@ def run(prop: str, tier: str, seed: int, scratch: Path, replay=None, model_ok=Tr
             mism = coqrun.parse_pairs(m1.group(1))
             for ci, k in mism:
                 c, o, _ = results[base + ci]
-                dbg = scratch / f'debug_{base + ci}.v'
-                dbg.write_text(debug_file(coq_case(c, o), k))
-                _, dout = coqrun.coqc_file(dbg)
+                dout = ''
+                if len(corr_failures) < 2:
+                    dbg = scratch / f'debug_{base + ci}.v'
+                    dbg.write_text(debug_file(coq_case(c, o), k))
+                    _, dout = coqrun.coqc_file(dbg)
                 corr_failures.append({'case': c, 'op_index': k, 'op': c['ops'][k], 'implementation': o[k],
                                       'model_vs_impl_coq': ' '.join(dout.split())[-3000:]})
             wf = coqrun.parse_nats(m2.group(1))
